@@ -194,6 +194,13 @@ def h_desired(env, ops, n, outcome, init, func_ops=None, control_kind=None, cana
     if not any(op[0] in ("cm", "cmf") for op in ops):
         mid = b.mid_circuit_meas_freqs
         env.check_same(sorted(mid), [outcome], "mid-circuit frequencies carry exactly the requested outcome string")
+    if control_kind == "class":
+        # the classical-control object is told that the run is over exactly once (stateful controllers reset there), and was
+        # consulted once per CMEASURE of the selected branch, with the requested outcomes in order
+        env.check_same(cm.finalized, 1, "ClassicalControl.finalize() is called once per exact simulation")
+        n_cm = sum(1 for a in applied if a[0] == "CMEASURE")
+        env.check_true(len(cm.seen) >= 1 and len(cm.seen) <= n_cm, "ClassicalControl.return_gates() consulted once per function-controlled CMEASURE",
+                       detail=f"{cm.seen} for {n_cm} CMEASURE gates")
     # gates applied in this run are exactly those selected by the outcomes (CMEASURE circuits only)
     if any(op[0] in ("cm", "cmf") for op in ops):
         got = [(g.name, g.target, g.control) + ((g.parameter,) if g.name in ("MEASURE", "CMEASURE") else ()) for g in circ.applied_gates]
@@ -480,6 +487,10 @@ SHAPES1 = {
                 {"0": [("g", "RX", [1], [])], "1": [("g", "X", [0], []), ("cmf_stop",)]}),
 }
 # the function-controlled example must not recurse: replace the marker
+# gates selected by a CMEASURE are followed DIRECTLY by the next measurement (no gate of the enclosing circuit in between)
+SHAPES1["cm-then-m"] = ([RY0, ("g", "RX", [1], []), ("cm", 0, {"0": [("g", "X", [1], [])], "1": [("g", "RY", [1], [])]}), ("m", 1)], 2, None)
+SHAPES1["cm-then-cm"] = ([RY0, ("cm", 0, {"0": [("g", "RX", [1], [])], "1": [("g", "H", [1], [])]}),
+                          ("cm", 1, {"0": [], "1": [("g", "X", [0], [])]}), ("g", "H", [0], [])], 2, None)
 # the LATER measurement acts on a shallower qubit (simulators that schedule by depth execute it first)
 SHAPES1["m-depth"] = ([RY0, ("g", "H", [0], []), ("g", "RZ", [0], []), ("g", "RX", [1], []), ("m", 0), ("m", 1)], 2, None)
 SHAPES1["cm-func"] = (SHAPES1["cm-func"][0], 2, {"0": [("g", "RX", [1], [])], "1": [("g", "X", [0], [])]})
